@@ -283,7 +283,11 @@ class Transformer_InPlace(Transformer[_Leaf_T, _Return_T]):
         for subtree in tree.iter_subtrees():
             subtree.children = list(self._transform_children(subtree.children))
 
-        return self._transform_tree(tree)
+        res = self._transform_tree(tree)
+        if res is Discard:
+            # Same as Transformer.transform: a discarded root leaves nothing
+            return None     # type: ignore[return-value]
+        return res
 
 
 class Transformer_NonRecursive(Transformer[_Leaf_T, _Return_T]):
